@@ -355,8 +355,16 @@ FUZZ_CHARS = ("\x0b", "\x1c", "\x1d", "\x1e", "\x85", "\u2029", "\r", "\t", "\x0
 _ODD_CODEPOINTS = [chr(c) for c in range(0x80, 0x3100) if chr(c).isspace() or 0x80 <= c <= 0x9F or c in (0xAD, 0x200B, 0x200C, 0x200D, 0x200E, 0x2060, 0xFEFF, 0x061C)] + ["\ufeff", "\ufffe", "\uffff", "\U000e0001"]
 
 
+# characters some notion of "digit", "number", "letter" or "quote" knows and another does not
+# (str.isdigit() vs int(): superscripts, circled digits; decimal digits of other scripts; Roman
+# numerals, fractions; typographic quotes and look-alike punctuation)
+_LOOKALIKES = [chr(c) for c in range(0x80, 0x3100) if (chr(c).isdigit() and not chr(c).isdecimal()) or (chr(c).isnumeric() and not chr(c).isdigit())][:400] + [chr(c) for c in (0x0661, 0x0967, 0xFF11, 0xFF10, 0x1D7CF)] + list("‘’“”«′＇＂［］．＄＠․∕⁎")
+
+
 def _fuzz_char(rng) -> str:
     r = rng.random()
+    if r < 0.12:
+        return rng.choice(_LOOKALIKES)
     if r < 0.45:
         return rng.choice(FUZZ_CHARS)
     if r < 0.85:
